@@ -72,7 +72,7 @@ PostOk == /\ polls' = Ev.polls
           /\ Len(cb') = Ev.ncb
           /\ led' = Ev.led
 
-InvNames == <<"Order", "ReleaseIff", "ReturnValue", "Prompt", "Led", "MuteWhenNone", "TargetFresh">>
+InvNames == <<"Order", "ReleaseIff", "ReturnValue", "Prompt", "Led", "MuteWhenNone", "TargetFresh", "Pauses">>
 InvP(n) == CASE n = "Order" -> OrderP(cb')
              [] n = "ReleaseIff" -> ReleaseIffP(cb', pc' = "done")
              [] n = "ReturnValue" -> ReturnValueP(pc', ret', cb', left', err', termSeen')
@@ -84,6 +84,7 @@ InvP(n) == CASE n = "Order" -> OrderP(cb')
              [] n = "TargetFresh" ->
                    /\ (Ev.a = "Sense" => Ev.target = (IF Ev.r \in {"tag", "dep"} THEN "remote" ELSE "none"))
                    /\ (Ev.a = "Listen" => Ev.target = (IF Ev.r = "reader" THEN "local" ELSE "none"))
+             [] n = "Pauses" -> Ev.minpause >= 0       \* no negative pause between sense rounds (time.sleep argument)
 AllInv == \A i \in DOMAIN InvNames : InvP(InvNames[i])
 
 Real == Guarded /\ PostOk /\ AllInv
